@@ -18,11 +18,13 @@ fn space_for(tier: Tier) -> (Space, usize) {
     let mut s = Space::new();
     match tier {
         Tier::Quick => {
-            s.ast("AN", 5, 64).ast("ANU", 3, 64);
+            s.ast("AN", 5, 64).ast("ANU", 3, 64).ast("ANQ", 4, 64);
+            s.list("flag strings", 1, 1);
             (s, 4)
         }
         Tier::Thorough => {
-            s.ast("AN", 5, 64).ast("ANU", 4, 64);
+            s.ast("AN", 5, 64).ast("ANU", 4, 64).ast("ANQ", 4, 64);
+            s.list("flag strings", 1, 1);
             (s, 5)
         }
     }
@@ -54,6 +56,11 @@ impl Check for C12 {
         let (sp, maxlen) = space_for(ctx.tier);
         let (seg, lo, hi) = sp.locate(chunk);
         let scope_name = space::seg_scope_name(seg);
+        if let space::SegKind::List { .. } = seg.kind {
+            let n = common::flag_effect(out, "C12", 'm') + common::flag_effect(out, "C12", 's');
+            out.sample(J::obj(vec![("flag_strings_probed", J::i(n as usize))]));
+            return;
+        }
         let sigma = match &seg.kind {
             space::SegKind::Ast { scope, .. } => crate::gen::scope(scope).sigma,
             _ => unreachable!(),
